@@ -5516,10 +5516,24 @@ class Entity(object, metaclass=EntityMeta):
         if status in ('created', 'modified'):
             obj._save_principal_objects_(dependent_objects)
 
+        # many-to-one references whose other side is a collection, with the parent the database row points to now
+        refs = [ (attr, obj._dbvals_.get(attr)) for attr in obj._attrs_with_columns_
+                 if attr.reverse and attr.reverse.is_collection and not attr.is_collection ]
+
         if status == 'created': obj._save_created_()
         elif status == 'modified': obj._save_updated_()
         elif status == 'marked_to_delete': obj._save_deleted_()
         else: assert False, "_save_() called for object %r with incorrect status %s" % (obj, status)  # pragma: no cover
+
+        # the row now carries the object's current references: the pending added / removed bookkeeping of the parents'
+        # collections (kept when a single object is saved by obj.flush()) must not account for this object any more
+        for attr, old_parent in refs:
+            for parent in (old_parent, obj._vals_.get(attr) if obj._vals_ is not None else None):
+                if parent is None or parent is NOT_LOADED or parent._vals_ is None: continue
+                setdata = parent._vals_.get(attr.reverse)
+                if setdata is None: continue
+                if setdata.added: setdata.added.discard(obj)
+                if setdata.removed: setdata.removed.discard(obj)
 
         assert obj._status_ in saved_statuses
         cache = obj._session_cache_
